@@ -818,8 +818,7 @@ def oracle(ctx, pym, more=False):
     def bad(pred, cls, case, expected=None, got=None):
         ctx.violation('impl-violates', 'Signal/SignalSlice', pred, cls, case, expected=expected, got=got)
 
-    for t in range(n):
-        ctx.search_evaluations += 1
+    def one_case():
         shp = rand_shape(prng)
         cx = prng.random() < 0.3
 
@@ -937,9 +936,15 @@ def oracle(ctx, pym, more=False):
         sc.reset(True)
         if sc.sensitivity != 0:
             bad('scalar reset with kept allocation gives 0', 'scalar', case)
-    # sequence oracle: protocol operations against plain value-level arrays
-    for t in range(300 if not more else 2000):
+
+    for t in range(n):
         ctx.search_evaluations += 1
+        try:
+            one_case()
+        except Exception as e:
+            bad('protocol operations on well-formed slices do not raise', 'exception', dict(error=repr(e)[:300]))
+    # sequence oracle: protocol operations against plain value-level arrays
+    def one_seq():
         shp = rand_shape(prng)
         B = rng.integers(-9, 10, size=shp)
         sigs = [pym.Signal('p0', state=B.copy()), pym.Signal('p1', state=B.copy())]
@@ -998,6 +1003,14 @@ def oracle(ctx, pym, more=False):
                     bad('sensitivities behave as independent plain arrays under add/reset/slicing', 'sequence',
                         dict(shape=list(shp), history=hist), str(spec[j]), str(g))
                     break
+
+
+    for t in range(300 if not more else 2000):
+        ctx.search_evaluations += 1
+        try:
+            one_seq()
+        except Exception as e:
+            bad('protocol operations on well-formed slices do not raise', 'exception', dict(error=repr(e)[:300]))
 
 
 if __name__ == '__main__':
